@@ -533,5 +533,24 @@ ROUND8_TECH = {
 for _k, _v in ROUND8_TECH.items():
     CLAIMS[_k]["technique"] = CLAIMS[_k]["technique"] + _v
 
+ROUND9 = {
+ "C02": " Whichever function re-links a slab that was full -- free_in_slab_ itself or, with the helper folded in, each of free() "
+        "and deallocate() -- does so on exactly the paths that push a block onto a previously empty free list (E.reuse-before-map, "
+        "both entry values of `available`, only the pushing paths).",
+ "C03": " Policy::unmap is reached from one release helper or from each release entry point; every site takes both arguments "
+        "from one frame before its header is poisoned and only for a frame that is not a slab (E.unmap-provenance).",
+ "C07": " aggregate() is interpreted over bound values on both sides of zero, with folded helpers and conditional expressions "
+        "evaluated: a value-initialised bound is not an identity of max (M.aggregator).",
+ "C08": " The tree returned by _merge / _collapse is consumed at every call and reaches _root in push, pop and remove, "
+        "through named locals and nested merges (H.merge-result-kept).",
+}
+for _k, _v in ROUND9.items():
+    CLAIMS[_k]["text"] = CLAIMS[_k]["text"] + _v
+ROUND9_TECH = {
+ "C08": "; value-sink analysis of the merge results",
+}
+for _k, _v in ROUND9_TECH.items():
+    CLAIMS[_k]["technique"] = CLAIMS[_k]["technique"] + _v
+
 NOT_YET = "check not built yet in this revision (see DESIGN.md §7 order of work); not claimed until it exists"
 NA = {}
